@@ -45,6 +45,32 @@ def _sizes(limit):
             max(8, 3 * frag + 1 + (3 * frag + 1) % 2)]
 
 
+def _near(limit, kind, seed):
+    """Data-set sizes for which command set + data set together are just below, at and just
+    above what one P-DATA-TF of the limit can carry behind one / two item headers."""
+    if not limit or limit < 160 or limit > 6000:
+        return []
+    from pynetdicom2 import dimsemessages, dsutils
+    msg = dimsemessages.CFindRQMessage() if kind == 'rq' else dimsemessages.CFindRSPMessage()
+    msg.sop_class_uid = FIND
+    if kind == 'rq':
+        msg.message_id = 1
+        msg.priority = 0
+    else:
+        msg.message_id_being_responded_to = 7
+        msg.status = 0xFF00
+    msg.data_set = b'xx'
+    cl = len(dsutils.encode(msg.command_set, True, True))
+    out = []
+    for d in range(-14, 3, 2):
+        n = limit - 6 - cl + d
+        n -= n % 2
+        if n >= 8 and n not in out:
+            out.append(n)
+    # a rotating half of them per case keeps the run short
+    return [n for i, n in enumerate(out) if (i + seed) % 2 == 0]
+
+
 def _ds_of(n):
     """pydicom Dataset whose implicit-VR-LE encoding has exactly n bytes (n even, >= 8)."""
     import pydicom
@@ -90,7 +116,7 @@ def _requestor(case):
         ae.timeout = 3600
         ae.add_scu(sopclass.qr_find_scu)
         limit = pmax if (pmax and (not local or pmax < local)) else local
-        sizes = _sizes(limit)
+        sizes = _sizes(limit) + _near(limit, 'rq', case['seed'])
         res = {}
 
         def user():
@@ -155,7 +181,7 @@ def _acceptor(case):
     viol = []
     try:
         limit = pmax if (pmax and (not local or pmax < local)) else local
-        sizes = _sizes(limit)
+        sizes = _sizes(limit) + _near(limit, 'rsp', case['seed'])
         queries = []
 
         class Srv(applicationentity.AE):
